@@ -501,6 +501,21 @@ func (m *methodCtx) poolCalls(field, method string) []*ast.CallExpr {
 				out = append(out, c)
 			}
 		}
+		// the pool reached through a helper method of the receiver that
+		// returns it: g.lineIDsFor(fid, tid).Use(lid)
+		if hc, ok := x.(*ast.CallExpr); ok {
+			if hs, ok := hc.Fun.(*ast.SelectorExpr); ok {
+				if id, ok := hs.X.(*ast.Ident); ok && core.ObjOf(m.info, id) == m.recv {
+					if tv, ok := m.info.Types[hc]; ok && tv.Type != nil {
+						if pt, ok := tv.Type.(*types.Pointer); ok {
+							if nt, ok := pt.Elem().(*types.Named); ok && nt.Obj().Name() == "Set" && nt.Obj().Pkg() != nil && nt.Obj().Pkg().Name() == "uid" {
+								out = append(out, c)
+							}
+						}
+					}
+				}
+			}
+		}
 		return true
 	})
 	return out
